@@ -1629,22 +1629,34 @@ checkpointed user %u", u);
 static int
 chkpnt(void)
 {
+	size_t nfail = 0U;
 	int rc = 0;
 
 	ECHS_NOTI_LOG("checkpoint");
 	if (ichkpnts >= countof(chkpnts)) {
-		rc = chkpnta();
+		if ((rc = chkpnta()) < 0) {
+			/* we don't know whose file failed, try again next time,
+			 * the latest upon shutdown */
+			return rc;
+		}
 		goto fin;
 	}
 	/* otherwise just go through the list of checkpoint users */
 	for (size_t i = 0U; i < ichkpnts; i++) {
-		rc += chkpnt1(chkpnts[i].key);
+		if (chkpnt1(chkpnts[i].key) < 0) {
+			/* keep the note, his changes are still to be written */
+			chkpnts[nfail++].key = chkpnts[i].key;
+			rc--;
+		}
 	}
 fin:
 	/* all checkpoints cleared hopefully,
 	 * the nodes will be inserted afresh, forget the old links */
 	ichkpnts = 0U;
 	NEDTRIE_INIT(&chkpntr);
+	for (size_t i = 0U; i < nfail; i++) {
+		add_chkpnt(chkpnts[i].key);
+	}
 	return rc;
 }
 
